@@ -757,6 +757,16 @@ func (b *BaseStore) Load(ctx context.Context, amount int) error {
 				return
 			}
 
+			// the fetcher does not report that it was interrupted: it returns
+			// what it had read so far. Joining that would leave the store with
+			// a head and not everything below it, and later requests for that
+			// head, finding it in the log, would bring nothing
+			if inErr = ctx.Err(); inErr != nil {
+				span.AddEvent("store-head-loading-interrupted")
+				err = fmt.Errorf("the load was interrupted: %w", inErr)
+				return
+			}
+
 			b.recalculateReplicationStatus(h.GetClock().GetTime())
 
 			span.AddEvent("store-head-loaded")
